@@ -100,6 +100,7 @@ fn spawn(job: &Job, prop: &str, tier: Tier, seed: u64, outdir: &str) -> Child {
         .arg(job.skip.to_string())
         .arg(outdir)
         .args(&job.files)
+        .env("VERIF_SCRATCH", format!("{outdir}/scratch"))
         .stdin(Stdio::null())
         .stdout(Stdio::from(log))
         .stderr(Stdio::from(log2));
